@@ -302,13 +302,21 @@ def noLeakAtCensus (tr : List Ev) : Bool :=
     | .census _ _ _ _ leaked => leaked == 0
     | _ => true
 
-/-- once the network behaves again the probe frame is delivered and the probe command written -/
-def healed (tr : List Ev) (probeSid : Nat) : Bool :=
-  match tr.dropWhile (fun ev => match ev with | .heal _ => false | _ => true) with
-  | [] => true
-  | _ :: after =>
-    after.any (fun ev => match ev with | .probeDelivered true _ => true | _ => false) &&
-    after.any (fun ev => match ev with | .wire _ s _ => s = probeSid | _ => false)
+/-- the events up to (not including) the next `heal` -/
+def untilHeal : List Ev → List Ev
+  | [] => []
+  | .heal _ :: _ => []
+  | ev :: rest => ev :: untilHeal rest
+
+/-- once the network behaves again the probe frame is delivered and the probe command written - after EVERY `heal` of the run, before
+    the next one (a script may break the healed link again and heal it once more) -/
+def healed : List Ev → Nat → Bool
+  | [], _ => true
+  | .heal _ :: after, probeSid =>
+    ((untilHeal after).any (fun ev => match ev with | .probeDelivered true _ => true | _ => false) &&
+     (untilHeal after).any (fun ev => match ev with | .wire _ s _ => s = probeSid | _ => false)) &&
+    healed after probeSid
+  | _ :: after, probeSid => healed after probeSid
 
 def c07 (tr : List Ev) (probeSid : Nat) : Bool :=
   atMostOneConnection tr && noLeakAtCensus tr && healed tr probeSid
